@@ -20,11 +20,18 @@ UNFMT = "fn  f{i}( x:u32 )->u32{{x+{i}}}\n"
 ROOT_DECL = "mod m1;\nmod m2;\n"
 
 
-def materialise(d, changed, formatted):
+STALE = "// left over from an earlier run\n"
+PRES = {"none": (), "bk": ("bk",), "tmp": ("tmp",), "both": ("tmp", "bk")}
+
+
+def materialise(d, changed, formatted, pre="none"):
     """files in emission order: m1.rs, m2.rs, m3.rs (root, declares m1, m2)."""
     d.mkdir(parents=True, exist_ok=True)
     for p in d.iterdir():
         p.unlink()
+    for i in (1, 2, 3):
+        for ext in PRES[pre]:
+            (d / f"m{i}.{ext}").write_text(STALE)
     orig = {}
     for i in (1, 2, 3):
         body = UNFMT.format(i=i)
@@ -45,7 +52,8 @@ def classify(d, i, orig, new):
             out[nm] = "absent"
         else:
             b = p.read_text(errors="replace")
-            out[nm] = "orig" if b == orig[i] else "new" if b == new[i] else "partial"
+            out[nm] = "orig" if b == orig[i] else "new" if b == new[i] else \
+                "stale" if b == STALE else "partial"
             if orig[i] == new[i] and b == orig[i]:
                 out[nm] = "orig"
     return out
@@ -70,7 +78,7 @@ def run(tier, seed, replay=None):
         trans += res.states
         mc[proto] = res
         for s in core.printed_json(res, "REPLAY"):
-            key = (proto, tuple(s["changed"]))
+            key = (proto, tuple(s["changed"]), json.dumps(s["disk0"], sort_keys=True))
             predicted.setdefault(key, set()).add(
                 (s["status"], json.dumps(s["disk"], sort_keys=True)))
         # vacuity: every protocol action of this protocol must have been taken
@@ -84,11 +92,14 @@ def run(tier, seed, replay=None):
     # ---- 2. crash / fault enumeration on the real binary --------------------
     have_strace = fsobs.strace_ok()
     vectors = list(itertools.product([False, True], repeat=NF))
+    scen = [(c, p) for c in vectors for p in PRES]
     if tier == "quick":
-        core_vecs = [(True, True, True), (False, True, False), (True, False, True)]
-        rest = [x for x in vectors if x not in core_vecs and any(x)]
+        T, F = True, False
+        core_s = [((T, T, T), "none"), ((T, T, T), "bk"), ((F, T, F), "tmp"),
+                  ((T, F, T), "both"), ((F, F, F), "bk")]
+        rest = [x for x in scen if x not in core_s and any(x[0])]
         rng.shuffle(rest)
-        vectors = core_vecs + rest[:1] + [(False, False, False)]
+        scen = core_s + rest[:1]
     runs = 0
     distinct_states = set()
     traces_sem, traces_op = [], {"backup": [], "plain": []}
@@ -105,9 +116,12 @@ def run(tier, seed, replay=None):
 
         for proto in ("backup", "plain"):
             flags = ["--backup"] if proto == "backup" else []
-            for changed in vectors:
+            for changed, pre in scen:
                 d = sc / "w"
-                orig = materialise(d, changed, new)
+                orig = materialise(d, changed, new, pre)
+                disk0 = [{"f": "orig", "tmp": "stale" if "tmp" in PRES[pre] else "absent",
+                          "bk": "stale" if "bk" in PRES[pre] else "absent"} for _ in range(NF)]
+                d0key = json.dumps(disk0, sort_keys=True)
                 names = {}
                 for i in (1, 2, 3):
                     for nm, ext in (("f", "rs"), ("tmp", "tmp"), ("bk", "bk")):
@@ -121,8 +135,8 @@ def run(tier, seed, replay=None):
                     runs += 1
                     disk = [classify(d, i, orig, new) for i in (1, 2, 3)]
                     key = json.dumps(disk, sort_keys=True)
-                    distinct_states.add((proto, changed, key))
-                    case = {"protocol": proto, "changed": changed, "inject": inj,
+                    distinct_states.add((proto, changed, pre, key))
+                    case = {"protocol": proto, "changed": changed, "pre": pre, "inject": inj,
                             "disk": disk, "exit": exit_code}
                     v.sample(case)
                     # declarative clauses (C20) on the observed disk
@@ -130,29 +144,30 @@ def run(tier, seed, replay=None):
                         for i, dsk in enumerate(disk, 1):
                             if not (dsk["f"] == "orig" or dsk["bk"] == "orig"):
                                 v.violation(
-                                    f"crash:{proto}:{changed}:{inj}:recoverable",
+                                    f"crash:{proto}:{changed}:{pre}:{inj}:recoverable",
                                     f"original of m{i}.rs not recoverable after {inj}: {dsk}",
                                     case)
                             if dsk["f"] not in ("absent", "orig", "new"):
                                 v.violation(
-                                    f"crash:{proto}:{changed}:{inj}:partial",
+                                    f"crash:{proto}:{changed}:{pre}:{inj}:partial",
                                     f"m{i}.rs holds a partial text after {inj}: {dsk}", case)
                     if inj is None:
                         for i, dsk in enumerate(disk, 1):
                             want_f = "new" if changed[i - 1] else "orig"
                             ok = dsk["f"] == want_f
-                            if proto == "backup":
-                                ok = ok and dsk["bk"] == ("orig" if changed[i - 1] else "absent") \
-                                    and dsk["tmp"] == "absent"
+                            if proto == "backup" and changed[i - 1]:
+                                ok = ok and dsk["bk"] == "orig" and dsk["tmp"] == "absent"
+                            if not changed[i - 1]:
+                                ok = ok and dsk == disk0[i - 1]
                             if not ok or exit_code != 0:
-                                v.violation(f"post:{proto}:{changed}",
+                                v.violation(f"post:{proto}:{changed}:{pre}",
                                             f"post-state of m{i}.rs wrong after a successful run: "
                                             f"{dsk} exit={exit_code}", case)
                     # drift: is it a state the protocol model predicts?
-                    pred = predicted.get((proto, tuple(changed)), set())
+                    pred = predicted.get((proto, tuple(changed), d0key), set())
                     if not any(k == key for (_, k) in pred):
                         v.drift += 1
-                        log(f"[drift] {proto} {changed} {inj}: {disk}")
+                        log(f"[drift] {proto} {changed} {pre} {inj}: {disk}")
 
                 if have_strace:
                     lg = sc / "strace.log"
@@ -169,12 +184,14 @@ def run(tier, seed, replay=None):
                         log(f"[drift] calls outside FsSem's vocabulary: {unknown[:2]}")
                     else:
                         traces_sem.append({"ev": "reset", "run": run_id, "mode": proto,
-                                           "n": NF, "changed": list(changed)})
+                                           "n": NF, "changed": list(changed),
+                                           "disk0": disk0})
                         traces_sem += events
                         traces_sem.append({"ev": "end", "run": run_id,
                                            "ok": r.returncode == 0})
                     # operational trace
-                    ops = [{"ev": "reset", "run": run_id, "changed": list(changed)}]
+                    ops = [{"ev": "reset", "run": run_id, "changed": list(changed),
+                            "disk0": disk0}]
                     for e in events:
                         o = None
                         if e["ev"] == "trunc":
@@ -202,7 +219,7 @@ def run(tier, seed, replay=None):
                                 if tier == "quick" and what == "error=EIO" and \
                                         changed != (True, True, True):
                                     continue
-                                materialise(d, changed, new)
+                                materialise(d, changed, new, pre)
                                 r2 = fsobs.run_strace(argv, d, watch, lg, inject=(scn, what, k))
                                 observe("crashed" if "KILL" in what else "failed",
                                         f"{scn}:{what}:when={k}", r2.returncode)
@@ -219,7 +236,7 @@ def run(tier, seed, replay=None):
                             for var in ("RUSTFMT_VERIF_CRASH", "RUSTFMT_VERIF_FAULT"):
                                 if pt == "backup.before" and var.endswith("FAULT"):
                                     continue
-                                materialise(d, changed, new)
+                                materialise(d, changed, new, pre)
                                 r2 = subprocess.run(argv, cwd=d, capture_output=True, text=True,
                                                     env=core.run_env({var: f"{pt}@{k}"}))
                                 observe("x", f"{var}={pt}@{k}", r2.returncode)
